@@ -38,7 +38,7 @@ func TestLossless(t *testing.T) {
 		t.Fatal(err)
 	}
 	if !reflect.DeepEqual(in, out) {
-		t.Fatalf("round trip differs:\n in %q\nout %q\n js %s", in, out, js)
+		t.Fatalf("round trip differs:\n in %+v\nout %+v\n js %s", in, out, js)
 	}
 	plain := llCase{A: "abc", B: []string{"x"}}
 	js, _ = Marshal(plain)
